@@ -21,6 +21,9 @@ CODE = {"value": 0, "error": 1, "panic": 2}
 IMPORTS = """From Coq Require Import List String Bool Arith.
 From Opcua Require Import Model.ClientGuards Model.ClientOps Model.ClientSession Gen.ClientSites Props.C22.
 Import List. Import ListNotations. Open Scope list_scope. Open Scope nat_scope.
+Definition with_kind (k : rkind) (e : env t_bytes) : env t_bytes :=
+  {| e_mode := e_mode _ e; e_client_cert := e_client_cert _ e; e_nonce := e_nonce _ e; e_create_kind := k; e_resp_cert := e_resp_cert _ e;
+     e_resp_sig := e_resp_sig _ e; e_activate_kind := e_activate_kind _ e; e_namespaces_ok := e_namespaces_ok _ e |}.
 Definition proj (r : result) : nat * nat * bool * bool :=
   (match r_res r with Connected => 0 | ConnError => 1 | ConnPanic => 2 end,
    match r_state r with StClosed => 0 | StConnected => 1 | StConnecting => 2 | StDisconnected => 3 | StReconnecting => 4 end,
@@ -42,7 +45,7 @@ def obs_tuple(o):
 
 
 def run(ctx):
-    n = 700 if ctx.thorough() else 110
+    n = 900 if ctx.thorough() else 150
     proof_ok, detail = True, {}
     ok, out = ctx.regen(["clientsites"])
     if not ok:
@@ -107,6 +110,12 @@ def run(ctx):
             report("panic/%s/%s" % (sig, (o.get("where") or "?")), "Connect panicked: %s at %s" % (o.get("panic"), o.get("where")), o)
         elif o["outcome"] not in ("value", "error"):
             report("%s/%s" % (o["outcome"], sig), "Connect did not return: " + (o.get("err") or "")[:200], o)
+        elif o["case"]["p"].get("sr", 0) != 0:
+            # a CreateSessionResponse with any non-zero ServiceResult fails the request: no session, whatever the signature
+            if o["outcome"] == "value":
+                report("accepted-nonzero-service-result/%s/sr%d" % (sig, o["case"]["p"]["sr"]), "Connect succeeded although CreateSession was answered with a non-zero ServiceResult (signature variant %s)" % sig, o)
+            elif st != 0 or sess or o.get("activates", 0) > 0:
+                report("half-open/%s" % sig, "Connect failed but state=%s session=%s activates=%s" % (st, sess, o.get("activates")), o)
         elif mode != 1 and sig not in VALID:
             if o["outcome"] == "value":
                 report("accepted/%s/%s/%d%s" % (sig, pol, mode, "/chain" if o["case"]["p"].get("chain") else ""), "Connect succeeded although the server's session signature does not verify", o)
@@ -125,8 +134,11 @@ def run(ctx):
             st, sess = obs_tuple(o)
             if o["outcome"] == "panic":
                 st, sess = 2, False
-            lines.append("((%d, %d, %s, %s), t_env %s %s %s)" % (CODE[o["outcome"]], st if st is not None else 9,
-                         b(o.get("activates", 0) > 0), b(sess), MODE[mode], CERT.get(sig, "[7]"), SIG[sig]))
+            env = "t_env %s %s %s" % (MODE[mode], CERT.get(sig, "[7]"), SIG[sig])
+            if o["case"]["p"].get("sr", 0) != 0:
+                env = "with_kind KBadResult (%s)" % env
+            lines.append("((%d, %d, %s, %s), %s)" % (CODE[o["outcome"]], st if st is not None else 9,
+                         b(o.get("activates", 0) > 0), b(sess), env))
         okc, idx, clog = ctx.eval_cases(IMPORTS, "(nat * nat * bool * bool) * env t_bytes", lines,
                                         "  let '((a, s, act, se), e) := c in let '(a', s', act', se') := proj (t_connect e) in\n"
                                         "  (a =? a') && (s =? s') && Bool.eqb act act' && Bool.eqb se se'")
@@ -149,11 +161,11 @@ def run(ctx):
         ctx.notes.append("observation (not a violation of C22 as stated): a CreateSessionResponse carrying a DIFFERENT certificate than the one the "
                          "channel was opened with, and a signature valid under that other certificate, is accepted (%d cases): the client verifies "
                          "against the certificate in the response and never compares it with the channel's RemoteCertificate." % len(accepted_foreign))
-    cfgs = collections.Counter((o["case"]["s"]["policy"], o["case"]["p"]["mode"], o["case"]["s"]["sig"], o["case"]["p"].get("chain", 0)) for o in obs)
+    cfgs = collections.Counter((o["case"]["s"]["policy"], o["case"]["p"]["mode"], o["case"]["s"]["sig"], o["case"]["p"].get("chain", 0), o["case"]["p"].get("sr", 0)) for o in obs)
     ctx.coverage.update({
         "evaluations": len(obs),
         "distinct_nontrivial": len([k for k in cfgs if k[1] != 1]),
-        "rule": "quick: a seeded sample of the matrix {5 signed policies} x {Sign, SignAndEncrypt} x {23 signature / certificate / algorithm-label variants} x {client certificate single, chain of two (2 policies)} that contains every variant and every policy x mode, plus None controls; thorough: the whole matrix (230 + 23) and seeded repeats; distinct = distinct (policy, mode, variant) with a secured mode",
+        "rule": "quick: a seeded sample of the matrix {5 signed policies} x {Sign, SignAndEncrypt} x {23 signature / certificate / algorithm-label variants} x {client certificate single, chain of two (2 policies)} x {ServiceResult of the CreateSessionResponse: 0, non-zero Good, Uncertain, Bad} that contains every variant and every policy x mode, plus None controls; thorough: the whole matrix (230 + 23) and seeded repeats; distinct = distinct (policy, mode, variant) with a secured mode",
         "samples": [{k: o.get(k) for k in ("case", "outcome", "err", "obs", "activates")} for o in obs[len(replays):len(replays) + 3] + obs[-2:]],
         "outcomes": {"%s/%s/%s" % k: v for k, v in sorted(collections.Counter((o["case"]["s"]["sig"], "secured" if o["case"]["p"]["mode"] != 1 else "none", o["outcome"]) for o in obs).items())},
         "policies": sorted({o["case"]["s"]["policy"] for o in obs}),
